@@ -21,7 +21,7 @@ Conforming(C) == /\ \A k \in 1..Len(C) : Len(C[k]) = 4 /\ Cardinality(TSet(C[k])
                  /\ Cardinality(CellSets(C)) = Len(C)
                  /\ \A s \in TriOf(C) : Cardinality({ c \in CellSets(C) : s \subseteq c }) <= 2
 
-InitState(c) == [V |-> c.given.V, C |-> c.given.C, fam |-> c.given.family]
+InitState(c) == [V |-> c.given.V, C |-> c.given.C, fam |-> c.given.family, cellsplit |-> FALSE, mixed |-> FALSE]     \* cellsplit: a cell was split earlier in this block; mixed: ... and a face was split after it
 Judge(c, s, e) ==
   LET op == e.op IN
   IF op = "enter" THEN Ok(s)
@@ -30,7 +30,7 @@ Judge(c, s, e) ==
                 << e.V = s.V /\ e.C = s.C, "result_is_what_the_editor_built" >>,
                 << LET D == DeriveT(e.C, e.F, e.E, Len(e.V)) IN IsTetComplex(D), "result_faces_and_edges_completed_from_cells" >>,
                 << e.input_after = e.input_before \/ e.input_after = e.result_proj, "input_object_unchanged_or_equal_to_result" >> >>,
-             "volume" \o (IF e.queried = 1 THEN "/queried_before" ELSE "/fresh"), "", s)
+             "volume" \o (IF e.queried = 1 THEN "/queried_before" ELSE "/fresh") \o (IF s.mixed THEN "/face_split_after_cell_split" ELSE ""), "", s)
   ELSE IF e.exc # "" THEN Bad("operation_accepts_admissible_mesh", op, e.exc, s)
   ELSE
   LET nv == Len(s.V)
@@ -51,7 +51,8 @@ Judge(c, s, e) ==
                      << new = <<BaryOf(s.V, e.fv)>>, "new_vertex_at_face_centre" >>,
                      << Cardinality(BorderTris(e.C)) = Cardinality(BorderTris(s.C)) + (IF inc = 1 THEN 2 ELSE 0), "boundary_refined_only_at_that_face" >> >>
           [] OTHER -> << << FALSE, "unknown_operation" >> >>
-  IN Check(specific \o common, op, "", [s EXCEPT !.V = e.V, !.C = e.C])
+  IN Check(specific \o common, op \o (IF op = "split_tet_from_face_center" /\ s.cellsplit THEN "/after_cell_split_in_the_same_block" ELSE ""), "",
+           [s EXCEPT !.V = e.V, !.C = e.C, !.cellsplit = s.cellsplit \/ op = "split_cell_as_fan", !.mixed = s.mixed \/ (op = "split_tet_from_face_center" /\ s.cellsplit)])
 
 W == INSTANCE Walker
 Spec == W!Spec
